@@ -437,4 +437,31 @@ theorem swing_frame_iff (cfg : Cfg) (ts : List Char) (raw : List Nat) (remote : 
       simp only [hc, Bool.false_eq_true, if_false]
       cases cmd <;> simp [runProg]
 
+/-! ### non-vacuity: a concrete exchange meets the hypotheses -/
+
+def demoCfg : Cfg := { deviceId := cs!"a123bc", deviceKey := cs!"18" }
+def demoIr : IrSet :=
+  { id := cs!"ELEC7001", onOffType := 0,
+    waves := [⟨cs!"ar24_f1", cs!"P1", cs!"A1"⟩, ⟨cs!"ar24", cs!"P2", cs!"A2"⟩, ⟨cs!"off", cs!"P6", cs!"A6"⟩] }
+def loginRaw : List Nat := [0xfe, 0xf0, 0x0c, 0x00, 0x02, 0x32, 0xa1, 0x00, 0x11, 0x22, 0x33, 0x44]
+/-- a thermostat state reply: 24.5 °C, ON, COOL, target 23, fan LOW, swing OFF, remote ELEC7001 -/
+def thermoRaw : List Nat :=
+  List.replicate 76 0 ++ [245, 0, 1, 4, 23, 0x10, 0, 0] ++ [69, 76, 69, 67, 55, 48, 48, 49] ++ List.replicate 8 0
+example : WFcfg demoCfg := by unfold WFcfg; decide +kernel
+example : (match parseThermo thermoRaw with | .ok c => c.state == "ON" && c.mode == "COOL" && c.target == 23 && c.fan == "LOW" | .error _ => false) = true := by
+  decide +kernel
+/-- status update of the target temperature only: three frames, the last reply is the result; `never_false_success`'s hypotheses hold -/
+example : (match mkRemote demoIr with
+    | .ok r => (match runProg (controlBreeze demoCfg 1700000000 r none none 26 none none true) [loginRaw, thermoRaw, [1, 2, 3]] with
+        | (frames, .ok (.base raw)) => frames.length == 3 && raw == [1, 2, 3] && successful raw
+        | _ => false)
+    | .error _ => false) = true := by decide +kernel
+/-- the same with the command reply empty: RuntimeError-free result that is NOT successful — never a false success -/
+example : (match mkRemote demoIr with
+    | .ok r => (match runProg (controlBreeze demoCfg 1700000000 r none none 26 none none true) [loginRaw, thermoRaw, []] with
+        | (_, .ok (.base raw)) => !successful raw
+        | (_, .error _) => true
+        | _ => false)
+    | .error _ => false) = true := by decide +kernel
+
 end Props.C16
